@@ -6,7 +6,6 @@ package main
 
 import (
 	"fmt"
-	"go/ast"
 	"go/constant"
 	"go/token"
 	"go/types"
@@ -30,57 +29,6 @@ var fbbAnswerTable = map[byte]string{
 	'H': "Accept", 'h': "Accept", // "Message is accepted but will be held"
 	'R': "Reject", 'r': "Reject", // "Message is rejected"
 	'!': "Accept", 'A': "Accept", 'a': "Accept", // accepted from offset
-}
-
-// answerArms extracts letter -> assigned answer constant from the parser's switch.
-func answerArms(c *Ctx, fd *ast.FuncDecl, info *types.Info) (map[byte]string, map[byte]token.Pos) {
-	arms := map[byte]string{}
-	poss := map[byte]token.Pos{}
-	ast.Inspect(fd, func(n ast.Node) bool {
-		sw, ok := n.(*ast.SwitchStmt)
-		if !ok || sw.Tag == nil {
-			return true
-		}
-		for _, st := range sw.Body.List {
-			cc := st.(*ast.CaseClause)
-			var letters []byte
-			for _, e := range cc.List {
-				if v := exprConst(info, e); v != nil && v.Kind() == constant.Int {
-					if n, ok := constant.Int64Val(v); ok && n >= 0 && n < 256 {
-						letters = append(letters, byte(n))
-					}
-				}
-			}
-			if len(letters) == 0 {
-				continue
-			}
-			class := ""
-			ast.Inspect(cc, func(m ast.Node) bool {
-				as, ok := m.(*ast.AssignStmt)
-				if !ok {
-					return true
-				}
-				for i, lhs := range as.Lhs {
-					sel, ok := lhs.(*ast.SelectorExpr)
-					if !ok || sel.Sel.Name != "answer" || i >= len(as.Rhs) {
-						continue
-					}
-					if id, ok := ast.Unparen(as.Rhs[i]).(*ast.Ident); ok {
-						if cst, ok := info.Uses[id].(*types.Const); ok {
-							class = cst.Name()
-						}
-					}
-				}
-				return true
-			})
-			for _, l := range letters {
-				arms[l] = class
-				poss[l] = cc.Pos()
-			}
-		}
-		return true
-	})
-	return arms, poss
 }
 
 func checkC05(c *Ctx, r *Report) {
@@ -169,28 +117,57 @@ func checkC05(c *Ctx, r *Report) {
 
 	// ---- C05-alphabet
 	r.Rule("C05-alphabet", 17, "answer alphabet")
-	fd := funcDecl(p, "parseProposalAnswer")
-	if fd == nil {
+	// the arms are read off the code by following it once per letter with the answer character fixed
+	// (ip_h1.go): a switch, an if-chain and a look-up in a constant table give the same result
+	pfn := c.Func("fbb", "parseProposalAnswer")
+	var char *ssa.Index
+	if pfn != nil {
+		char, _ = h1AnswerChar(pfn)
+	}
+	classNames := map[int64]string{}
+	for _, n := range []string{"Accept", "Reject", "Defer"} {
+		if v, ok := constIntOf(p, n); ok {
+			classNames[v] = n
+		}
+	}
+	if pfn == nil {
 		r.Fail("C05-alphabet", "anchor fbb.parseProposalAnswer not found")
+	} else if char == nil {
+		r.Fail("C05-alphabet", "fbb.parseProposalAnswer: no read of an answer character from the answer line comes before every store to Proposal.answer (anchor unresolved)")
 	} else {
-		arms, poss := answerArms(c, fd, p.TypesInfo)
 		var letters []int
 		for l := range fbbAnswerTable {
 			letters = append(letters, int(l))
 		}
 		sort.Ints(letters)
+		var lb []byte
 		for _, li := range letters {
-			l := byte(li)
+			lb = append(lb, byte(li))
+		}
+		arms := c.h1AnswerArms(pfn, char, lb, func(n int64) string {
+			if name, ok := classNames[n]; ok {
+				return name
+			}
+			return fmt.Sprintf("byte %d", n)
+		})
+		for _, l := range lb {
 			want := fbbAnswerTable[l]
-			o := r.Add("C05-alphabet", "fbb.parseProposalAnswer", fmt.Sprintf("answer %q", string(rune(l))), c.pos(poss[l]))
-			got, has := arms[l]
+			arm := arms[l]
+			o := r.Add("C05-alphabet", "fbb.parseProposalAnswer", fmt.Sprintf("answer %q", string(rune(l))), c.pos(arm.pos))
+			got := arm.classes()
 			switch {
-			case !has:
+			case arm.truncated:
+				o.Bad("the handling of answer %q could not be followed to its end (too many paths): undecided", string(rune(l)))
+			case len(got) == 0:
 				o.Bad("no arm for answer %q: a conforming peer may send it (FBB table: %s)", string(rune(l)), want)
-			case got != want:
-				o.Bad("answer %q is handled as %s, the FBB table prescribes %s", string(rune(l)), got, want)
+			case len(got) > 1 || got[0] == "?":
+				o.Bad("answer %q does not store one decided answer: the paths that go on store %s%s", string(rune(l)), strings.Join(got, ", "), c.h1TableComplaints(pfn))
+			case arm.skips:
+				o.Bad("answer %q: some path goes on to the next answer without storing an answer for this proposal", string(rune(l)))
+			case got[0] != want:
+				o.Bad("answer %q is handled as %s, the FBB table prescribes %s", string(rune(l)), got[0], want)
 			default:
-				o.OK("arm assigns %s as the FBB table prescribes", got)
+				o.OK("arm assigns %s as the FBB table prescribes", got[0])
 			}
 		}
 		// offset arms must also parse the offset
@@ -255,6 +232,21 @@ func checkC05(c *Ctx, r *Report) {
 				n := callName(&call.Call)
 				return strings.HasSuffix(n, ".GetInboundAnswer") || strings.HasSuffix(n, ".GetInboundAnswers")
 			})
+			if vals, tab, isTab := c.h1TableStoreValues(st); isTab && !fromHandler {
+				// ip_h1.go: a field of an entry of a package-level table that is never written at run time
+				var alien []string
+				for _, n := range vals {
+					if _, in := group[n]; !in {
+						alien = append(alien, fmt.Sprintf("%d (%q)", n, string(rune(n))))
+					}
+				}
+				if len(alien) == 0 {
+					o.OK("stores a field of an entry of the constant table %s; every value it can take is an answer constant", tab)
+				} else {
+					o.Bad("stores a field of an entry of the table %s, which can be %s: not one of the answer constants + - = (a missing key yields the zero value unless the store is on the found edge of the look-up)", tab, strings.Join(alien, ", "))
+				}
+				return
+			}
 			if fromHandler {
 				o.OK("stores the inbound handler's answer")
 			} else {
@@ -843,15 +835,19 @@ func turnRule(c *Ctx, r *Report, rule string) {
 				r.Add(rule, where, "store to remoteNoMsgs", c.pos(st.Pos())).Bad("remoteNoMsgs is assigned a non-constant value (unresolved)")
 			case b:
 				trueStores = append(trueStores, st)
-				// only after FF, or after a prompt that closed an empty block
-				okWhere := false
+				// only after FF, or after a prompt that closed an empty block. "After FF": the tests that
+				// hold at the store say that the line read from the remote starts with FF - whatever their
+				// form (ip_h1.go: prefix compared with "FF", command byte compared after the 'F' test, ...)
+				okWhere := h1LineStartsWith(condsAt(st.Block()), "FF", func(v ssa.Value) bool {
+					return dependsOn(v, func(x ssa.Value) bool {
+						ci, isCall := x.(ssa.CallInstruction)
+						return isCall && c.isRemoteRead(ci)
+					})
+				})
 				for _, cd := range condsAt(st.Block()) {
 					bo, isB := cd.V.(*ssa.BinOp)
 					if !isB || bo.Op != token.EQL || !cd.Truth {
 						continue
-					}
-					if s, isS := constString(bo.Y); isS && s == "FF" {
-						okWhere = true
 					}
 					if k, isK := constInt(bo.Y); isK && k == 0 {
 						if lc, isLen := bo.X.(*ssa.Call); isLen && callName(&lc.Call) == "builtin.len" {
